@@ -44,7 +44,7 @@ func (S06) Info() scen.Info {
 			"goroutine scheduling":  "stub: seeded one-at-a-time scheduler (a second client loads another block while the fault is in flight)",
 		},
 		QuickUnits: 240, ThoroughUnits: 12000, QuickSecs: 240, ThoroughSecs: 1200,
-		ProbeKeys: []string{"probe.decode_failed_then_drained", "probe.error_at_eof_position", "probe.hash_collision_short_digest", "probe.late_error_after_complete_block", "probe.second_client_interleaved", "probe.hashmismatch_precedence_over_decode_error", "probe.reifier_loads_through_given_linksystem"},
+		ProbeKeys: []string{"probe.decode_failed_then_drained", "probe.error_at_eof_position", "probe.hash_collision_short_digest", "probe.late_error_after_complete_block", "probe.second_client_interleaved", "probe.hashmismatch_precedence_over_decode_error", "probe.reifier_loads_through_given_linksystem", "probe.kind_specific_prototype", "probe.consumer_used_writeto"},
 		EventsKey: "events",
 	}
 }
@@ -58,7 +58,7 @@ type baseInfo struct {
 }
 
 var fnNames = []string{"Load", "LoadRaw", "LoadPlusRaw", "Fill"}
-var kindNames = []string{"none", "trunc", "flip", "extend", "subst", "readerr", "openerr", "multi", "writeerr", "commiterr", "encfail"}
+var kindNames = []string{"none", "trunc", "flip", "extend", "subst", "readerr", "openerr", "multi", "writeerr", "commiterr", "encfail", "reread-differs"}
 
 func extBytes(i int, valid []byte) []byte {
 	switch i % 6 {
@@ -153,8 +153,9 @@ func (S06) RunTape(t *sim.Tape, st *sim.Stats, keepLog bool) *sim.Outcome {
 	chunkMode := t.Choice(4, "f.chunk")
 	eofWith := t.Bool("f.eofwith")
 	stall := t.Choice(3, "f.stall")
+	caps := t.Choice(4, "f.caps")
 	mkFault := func() *simstore.ReadFault {
-		f := &simstore.ReadFault{Err2At: -1, EOFWith: eofWith, Stall: stall, ErrSticky: sticky, ErrData: withData, Pos: pos, Bit: bit}
+		f := &simstore.ReadFault{Err2At: -1, EOFWith: eofWith, Stall: stall, ErrSticky: sticky, ErrData: withData, Pos: pos, Bit: bit, Caps: caps}
 		switch chunkMode {
 		case 1:
 			f.Chunk = 1
@@ -184,6 +185,10 @@ func (S06) RunTape(t *sim.Tape, st *sim.Stats, keepLog bool) *sim.Outcome {
 			f.Kind = "readerr"
 		case 6:
 			f.Kind = "openerr"
+		case 11:
+			// the first pass over the block delivers it intact; a consumer that seeks back to the start
+			// is given another block's bytes from then on
+			f.RewindSubst = B2
 		case 7:
 			// two-fault sequence: a corruption plus a read error further on
 			f.Kind = []string{"flip", "trunc", "extend"}[ext%3]
@@ -220,12 +225,19 @@ func (S06) RunTape(t *sim.Tape, st *sim.Stats, keepLog bool) *sim.Outcome {
 		}
 	}
 
+	// the faulted block is loaded into the Any prototype or into the generic prototype of its own kind
+	var loadProto datamodel.NodePrototype = basicnode.Prototype.Any
+	if t.Bool("cfg.specificproto") {
+		loadProto = protoForKind(V.K)
+		st.Inc("probe.kind_specific_prototype")
+	}
+
 	var outcomes [4]string
 	offsets := map[int]bool{}
 	info := &baseInfo{LenB: len(B), Codec: codec.Name}
 	fired := false
 
-	if kind <= 7 {
+	if kind <= 7 || kind == 11 {
 		seam.NextRead = func(l datamodel.Link) *simstore.ReadFault {
 			if s.Cur() == 0 && inReifier && l.Binary() == L2.Binary() {
 				return &simstore.ReadFault{Kind: "subst", Subst: B, Err2At: -1, Tag: 2}
@@ -267,7 +279,7 @@ func (S06) RunTape(t *sim.Tape, st *sim.Stats, keepLog bool) *sim.Outcome {
 			for fn := 0; fn < 4; fn++ {
 				s.Yield("op")
 				before := len(seam.Readers)
-				res := doLoad(&lsys, fn, L)
+				res := doLoadInto(&lsys, fn, L, loadProto)
 				var rd *simstore.Reader
 				for _, r := range seam.Readers[before:] {
 					if r.F.Tag == 1 {
@@ -285,6 +297,12 @@ func (S06) RunTape(t *sim.Tape, st *sim.Stats, keepLog bool) *sim.Outcome {
 					}
 				}
 				if rd != nil {
+					if len(rd.Passes) > 0 {
+						st.Inc("consumer_rewound_the_stream")
+					}
+					if rd.WroteTo {
+						st.Inc("probe.consumer_used_writeto")
+					}
 					for _, off := range rd.ReadSizes {
 						offsets[off] = true
 					}
@@ -462,16 +480,43 @@ func catch(f func()) (pan string) {
 }
 
 func doLoad(lsys *linking.LinkSystem, fn int, l datamodel.Link) (res loadRes) {
+	return doLoadInto(lsys, fn, l, basicnode.Prototype.Any)
+}
+
+// protoForKind is the kind-specific generic prototype for a value of that kind.
+func protoForKind(k model.Kind) datamodel.NodePrototype {
+	switch k {
+	case model.Map:
+		return basicnode.Prototype.Map
+	case model.List:
+		return basicnode.Prototype.List
+	case model.String:
+		return basicnode.Prototype.String
+	case model.Bytes:
+		return basicnode.Prototype.Bytes
+	case model.Int:
+		return basicnode.Prototype.Int
+	case model.Float:
+		return basicnode.Prototype.Float
+	case model.Bool:
+		return basicnode.Prototype.Bool
+	case model.Link:
+		return basicnode.Prototype.Link
+	}
+	return basicnode.Prototype.Any
+}
+
+func doLoadInto(lsys *linking.LinkSystem, fn int, l datamodel.Link, np datamodel.NodePrototype) (res loadRes) {
 	res.pan = catch(func() {
 		switch fn {
 		case 0:
-			res.node, res.err = lsys.Load(linking.LinkContext{}, l, basicnode.Prototype.Any)
+			res.node, res.err = lsys.Load(linking.LinkContext{}, l, np)
 		case 1:
 			res.raw, res.err = lsys.LoadRaw(linking.LinkContext{}, l)
 		case 2:
-			res.node, res.raw, res.err = lsys.LoadPlusRaw(linking.LinkContext{}, l, basicnode.Prototype.Any)
+			res.node, res.raw, res.err = lsys.LoadPlusRaw(linking.LinkContext{}, l, np)
 		case 3:
-			nb := basicnode.Prototype.Any.NewBuilder()
+			nb := np.NewBuilder()
 			res.err = lsys.Fill(linking.LinkContext{}, l, nb)
 			if res.err == nil {
 				res.node = nb.Build()
@@ -619,6 +664,7 @@ func (sc S06) Unit(u *scen.Unit) {
 			}
 			m2["f.chunk"] = c
 			m2["f.eofwith"] = rot & 1
+			m2["f.caps"] = (rot / 2) % 4
 			rot++
 			u.Exec(m2)
 		}
@@ -706,6 +752,8 @@ func (sc S06) Unit(u *scen.Unit) {
 	}
 	ex(map[string]int{"f.kind": 6})
 	u.St.Inc("enum.openerr")
+	ex(map[string]int{"f.kind": 11})
+	u.St.Inc("enum.reread_differs")
 	multi := 8
 	if u.Tier == "thorough" {
 		multi = 40
